@@ -1367,10 +1367,23 @@ rrul_fill_wly(echs_instant_t *restrict tgt, size_t nti, rrulsp_t rr)
 	if (wd_mask) {
 		unsigned int w = echs_scale_wday(srcsca, y, m, d);
 
+		/* rewind to the Monday of this week so that weeks, and with
+		 * them INTERVAL, are counted from Monday no matter which
+		 * weekday the (re)fill starts from, instants before the
+		 * proto are skipped further down */
+		for (; w > MON; w--) {
+			if (!--d) {
+				if (!--m) {
+					m = 12U;
+					y--;
+				}
+				d = echs_scale_ndim(srcsca, y, m);
+			}
+		}
 		/* duplicate the wd_mask so we can just right shift it
 		 * and wrap around the end of the week */
 		wd_mask |= wd_mask << 7U;
-		/* zap to current day so increments are relative to DTSTART */
+		/* zap to current day so increments are relative to Monday */
 		wd_mask >>= w;
 		/* clamp wd_mask to exactly 7 days */
 		wd_mask &= 0b1111111U;
